@@ -511,7 +511,7 @@ def _row_domain(it, mat: str = "a_r", vec: str = "b_r") -> Optional[str]:
     return None
 
 
-def _every_row(ctx: Ctx, rule: str, key: str, callee: str, mat: str, vec: str, short: str, what_rows: str, what_done: str, assume=None, floor: int = 2) -> None:
+def _every_row(ctx: Ctx, rule: str, key: str, callee: str, mat: str, vec: str, short: str, what_rows: str, what_done: str, assume=None, floor: int = 2, keep_result: bool = False) -> None:
     """Every row of (mat, vec) is handled by a call to `callee` inside the loop (or comprehension) over the rows.
     A row that is passed over on a condition that does not involve `vec` cannot have been handled correctly (changing
     that row's bound changes what the row means without changing the condition): definite violation; a skip that does
@@ -603,9 +603,28 @@ def _every_row(ctx: Ctx, rule: str, key: str, callee: str, mat: str, vec: str, s
                 seg.append(e)
                 continue
             n += 1
-            if not any(x["kind"] == "call" and x["callee"].endswith(callee) for x in seg):
+            calls_ = [x for x in seg if x["kind"] == "call" and x["callee"].endswith(callee)]
+            kept = True
+            if calls_ and keep_result:
+                # the callee's result has to end up in the list that is returned: an append (or a store) that mentions it
+                res_ = calls_[-1].get("result")
+                kept = any(
+                    (x["kind"] == "call" and x["callee"] in (".append", ".extend", ".insert") and any(mentions(a, lambda y, r=res_: y == r) for a in x.get("args", ())))
+                    or (x["kind"] == "store" and mentions(x.get("value"), lambda y, r=res_: y == r))
+                    for x in seg
+                )
+            if not calls_ or not kept:
                 tests = [x["test"] for x in seg if x["kind"] == "branch"]
-                looks_at_bound = any(mentions(t, lambda y: y == ("param", vec)) for t in tests)
+                def _sees_bound(t) -> bool:
+                    # the variables of a term say nothing about its constant: `term.vars` / `.variables` of a term built
+                    # from the row does not look at the bound
+                    if isinstance(t, tuple) and len(t) == 3 and t[0] == "attr" and t[2] in ("vars", "variables"):
+                        return False
+                    if t == ("param", vec):
+                        return True
+                    return isinstance(t, tuple) and any(_sees_bound(x) for x in t if isinstance(x, tuple))
+
+                looks_at_bound = any(_sees_bound(t) for t in tests)
                 what = "; ".join(sorted({norm(x["node"])[:70] for x in seg if x["kind"] == "branch"})) or "(unconditionally)"
                 verdicts[what] = "undecided" if looks_at_bound else "violation"
             seg = None
@@ -627,7 +646,7 @@ def rule_containment_every_row(ctx: Ctx, rule: str = "containment-every-row") ->
 def rule_back_conversion_every_row(ctx: Ctx, rule: str = "matrix-roundtrip") -> None:
     """C07: polytope_to_termlist turns every row of the matrix into a term (a row without coefficients and a negative
     bound is what makes a list unsatisfiable; dropping it on its coefficients alone changes the meaning)."""
-    _every_row(ctx, rule, PTL + "polytope_to_termlist", "polytope_to_term", "matrix", "vector", "polytope_to_termlist", "row of the matrix", "turned into a term", floor=1)
+    _every_row(ctx, rule, PTL + "polytope_to_termlist", "polytope_to_term", "matrix", "vector", "polytope_to_termlist", "row of the matrix", "turned into a term of the result", floor=1, keep_result=True)
 
 
 def _paired_relaxation(ctx: Ctx, p: PPath, key: str, vecp: str) -> Optional[Fraction]:
@@ -1963,6 +1982,40 @@ def rule_reduce_loop_discipline(ctx: Ctx, rule: str = "reduce-loop") -> None:
             else:
                 ctx.violation(rule, key, construct, "status %d, row %s: position moves by %s and row count by %s" % (s_, "removed" if deleted else "kept", pos_moves, count_moves), where=fi.where)
     ctx.floor("reduce_polytope iteration paths", n, 3)
+    # a row is only ever removed on the LP's verdict
+    construct = "reduce_polytope: a row is removed only after the LP has shown it redundant"
+    verdict = None
+    for p in Sim(prog, fi, assume=status_assume(0), loop_iters=(1,)).paths():
+        if p.terminal != "return" or p.calls("linprog"):
+            continue
+        dels = [e for e in p.events if e["kind"] == "call" and e["callee"].endswith("delete")]
+        if not dels:
+            continue
+        pending = [e for e in p.events if e["kind"] == "augassign" and not e["target_is_name"] and mentions(e["target"], lambda y: y == ("param", "b"))]
+        tests = [e for e in p.events if e["kind"] == "branch"]
+        relaxed_read = False
+        for a_ in pending:
+            base = a_["target"][1] if a_["target"][0] == "sub" else None
+            after = p.events[p.events.index(a_) + 1:]
+            undone = False
+            for e in after:
+                if e["kind"] == "augassign" and e["target"] == a_["target"]:
+                    undone = True
+                    break
+                if e["kind"] == "branch" and base is not None and mentions(e["test"], lambda y, base=base: y == base):
+                    relaxed_read = True
+            _ = undone
+        what = "; ".join(sorted({norm(e["node"])[:70] for e in tests if e["taken"]})) or "(unconditionally)"
+        if relaxed_read:
+            verdict = ("violation", "a row is deleted without an LP when %s - and that test reads the bound while it is still relaxed by the `+= 1` meant for the LP: a row up to 1 tighter than its twin is dropped" % what)
+            break
+        verdict = verdict or ("undecided", "a row is deleted without an LP when %s" % what)
+    if verdict is None:
+        ctx.ok(rule, key, construct)
+    elif verdict[0] == "violation":
+        ctx.violation(rule, key, construct, verdict[1], where=fi.where)
+    else:
+        ctx.cannot_decide(rule, key, construct, verdict[1])
 
 
 def _position_names(fi: FuncInfo) -> Set[str]:
